@@ -21,4 +21,5 @@ MUTANTS = [
     Mutant('mm_overlaps_mix', O, edit_node('has_michaelis_menten_elimination', stmt_containing('return is_nonlinear and not is_zero_order'), sub(' and not could_be_mixed', '')), 'T2', 'MM true for mixed models as well'),
     Mutant('zo_atom_differs', O, edit_node('has_zero_order_elimination', stmt_containing("is_zero_order = 'POP_KM' in"), sub(" and model.parameters['POP_KM'].fix", '')), 'T2', 'zero order no longer requires KM fixed'),
     Mutant('fo_always', O, edit_node('has_first_order_elimination', stmt_containing('return not is_nonlinear'), sub('return not is_nonlinear', 'return not is_nonlinear or could_be_mixed')), 'T2', 'FO overlaps MIX'),
+    Mutant('mm_setter_asserts_odes', 'src/pharmpy/modeling/odes.py', text_edit("    sset = model.statements\n    odes = get_and_check_odes(model)\n    central = odes.central_compartment\n    old_rate", "    sset = model.statements\n    odes = sset.ode_system\n    assert isinstance(odes, CompartmentalSystem)\n    central = odes.central_compartment\n    old_rate"), 'T10', 'assert instead of the documented refusal'),
 ]
